@@ -12,3 +12,6 @@ import OxiaVerif.Lemmas.Wal
 import OxiaVerif.Props.C09
 import OxiaVerif.Props.C09OnTree
 import OxiaVerif.Driver.Dispatch
+import OxiaVerif.Model.Codec
+import OxiaVerif.Props.C10
+import OxiaVerif.Props.C10OnTree
